@@ -553,8 +553,28 @@ func posFn(in []int, out []int) FuncSpec {
 func Hostile(r *rand.Rand) (Scenario, string) {
 	t := distinctTypes(r, 6)
 	var s Scenario
-	fam := r.Intn(15)
+	fam := r.Intn(16)
 	switch fam {
+	case 15: // same-typed type-only values that differ in their subtype only, consumed side by side
+		// conv: (T0/x, T0/y[, T0]) -> T1 ; target T1 (and optionally T0/y itself)
+		s.Inputs = []Label{{Type: t[0], Sub: "x"}, {Type: t[0], Sub: "y"}}
+		in := []Label{{Type: t[0], Sub: "x"}, {Type: t[0], Sub: "y"}}
+		if r.Intn(2) == 0 {
+			in = append(in, Label{Type: t[2]})
+			s.Inputs = append(s.Inputs, Label{Type: t[2]})
+		}
+		r.Shuffle(len(in), func(a, b int) { in[a], in[b] = in[b], in[a] })
+		s.Convs = []FuncSpec{{In: in, Out: []Label{{Type: t[1]}}, InForm: 1 + r.Intn(2), OutForm: FormPos, HasErr: r.Intn(2) == 0}}
+		s.Target = FuncSpec{In: []Label{{Type: t[1]}}, InForm: 1 + r.Intn(2)}
+		if r.Intn(2) == 0 {
+			s.Target.In = append(s.Target.In, Label{Type: t[0], Sub: pick(r, []string{"x", "y"})})
+		}
+		if r.Intn(2) == 0 {
+			// one more level: the converter sits behind another one
+			s.Convs = append(s.Convs, FuncSpec{In: []Label{{Type: t[1]}, {Type: t[0], Sub: "y"}}, Out: []Label{{Type: t[3]}}, InForm: 1 + r.Intn(2), OutForm: FormPos})
+			s.Target.In[0] = Label{Type: t[3]}
+		}
+		return s, "typed-subtypes-side-by-side"
 	case 14: // dependency cycle through two multi-input converters with single-input converters in between
 		// A:(eA,eS)->eX, C:eX->eB, B:(eB,eS)->eA1, D:eA1->eA; only eS supplied
 		eS, eA, eX, eB, eA1 := t[0], t[1], t[2], t[3], t[4]
